@@ -1,6 +1,7 @@
 //! Generators for the families sub, api, build, two.
 use crate::gen::*;
 use crate::model::*;
+use std::collections::BTreeMap;
 
 pub fn generate(family: &str, seed: u64) -> Program {
     match family {
@@ -16,7 +17,7 @@ pub fn generate(family: &str, seed: u64) -> Program {
 }
 
 fn direct(read: bool) -> SubCfg {
-    SubCfg { kind: SubKind::Direct, read_state: read, gate: None, sleep_ms: 0, shared: false }
+    SubCfg { kind: SubKind::Direct, read_state: read, gate: None, sleep_ms: 0, shared: false, ..Default::default() }
 }
 
 fn insert_at_random(g: &mut Gen, ops: &mut Vec<Op>, op: Op) {
@@ -72,7 +73,7 @@ pub fn sub(seed: u64) -> Program {
             3..=4 => SubKind::Selector,
             _ => SubKind::Channeled { cap: g.rng.pick(&[1usize, 2, 4]), policy: g.rng.pick(&[Policy::Block, Policy::Block, Policy::DropOldest, Policy::DropLatest]) },
         };
-        let mut cfg = SubCfg { kind: kind.clone(), read_state: false, gate: None, sleep_ms: 0, shared: false };
+        let mut cfg = SubCfg { kind: kind.clone(), read_state: false, gate: None, sleep_ms: 0, shared: false, ..Default::default() };
         if let SubKind::Channeled { policy, .. } = kind {
             match g.rng.below(10) {
                 0..=1 => {
@@ -82,7 +83,7 @@ pub fn sub(seed: u64) -> Program {
                         stalled_lossy = true;
                     }
                 }
-                2 => cfg.sleep_ms = g.rng.pick(&[1, 100]),
+                2 => cfg.sleep_ms = g.rng.pick(&[1, 100, 700]),
                 _ => {}
             }
         }
@@ -139,6 +140,34 @@ pub fn sub(seed: u64) -> Program {
             _ => insert_at_random(&mut g, &mut threads[t], op),
         }
     }
+    let mut settle_before_stop = false;
+    // a channeled subscriber that, when told about some action, unsubscribes ANOTHER subscriber
+    // from its own thread (never itself: joining one's own thread is outside the statement)
+    let all_prompt = subs.iter().all(|c| c.gate.is_none() && c.sleep_ms == 0);
+    if all_prompt && g.rng.chance(20) {
+        let chans: Vec<usize> = (1..subs.len()).filter(|&i| matches!(subs[i].kind, SubKind::Channeled { .. }) && subs[i].gate.is_none()).collect();
+        let acts: Vec<ActId> = g.acts.keys().cloned().collect();
+        if let (Some(&a_sub), false) = (chans.first(), acts.is_empty()) {
+            // registration index of a subscriber other than a_sub and other than the reference (reg 0)
+            let victims: Vec<usize> = (1..regs).filter(|&r| {
+                threads.iter().flatten().chain(main.iter()).any(|o| matches!(o, Op::AddSub { sub, reg, .. } if *reg == r && *sub != a_sub && *sub != 0))
+            }).collect();
+            if !victims.is_empty() {
+                let v = victims[g.rng.below(victims.len() as u64) as usize];
+                let trig = acts[g.rng.below(acts.len() as u64) as usize];
+                subs[a_sub].unsub_other = Some((trig, v));
+                // a callback that calls into the store must not meet an unsubscribe() or shutdown of
+                // its own subscriber half-way (that would wait for the callback while the callback
+                // waits for the subscriber list: excluded by C13's premise): nobody unsubscribes the
+                // caller in mid-run, and the store is quiescent before it is stopped
+                let a_regs: Vec<usize> = threads.iter().flatten().chain(main.iter()).filter_map(|o| match o { Op::AddSub { sub, reg, .. } if *sub == a_sub => Some(*reg), _ => None }).collect();
+                for t in threads.iter_mut().skip(1) {
+                    t.retain(|o| !matches!(o, Op::Unsub { reg } if a_regs.contains(reg)));
+                }
+                settle_before_stop = true;
+            }
+        }
+    }
     // two direct subscribers registered one after the other by one client in mid-run (whatever
     // the list is going through at that moment, they are called in that order from then on)
     if g.rng.chance(25) {
@@ -151,7 +180,7 @@ pub fn sub(seed: u64) -> Program {
         }
     }
     // iterators with their own consumer threads
-    let niter = if stalled_lossy { 0 } else { g.rng.below(3) as usize };
+    let niter = if stalled_lossy || settle_before_stop { 0 } else { g.rng.below(3) as usize };
     let mut consumers = vec![];
     for it in 0..niter {
         let early_drop = g.rng.chance(4);
@@ -224,6 +253,9 @@ pub fn sub(seed: u64) -> Program {
     if straggler.is_some() && g.rng.chance(50) {
         main.push(Op::Sleep { ms: 50 });
     }
+    if settle_before_stop {
+        main.push(Op::Settle);
+    }
     main.push(Op::Stop { store: 0 });
     for t in consumers {
         main.push(Op::Join { thread: t });
@@ -289,7 +321,7 @@ pub fn api(seed: u64) -> Program {
                         1 => SubKind::Selector,
                         _ => SubKind::Channeled { cap: g.rng.pick(&[1usize, 2, 16]), policy: g.rng.pick(&[Policy::Block, Policy::DropOldest, Policy::DropLatest]) },
                     };
-                    subs.push(SubCfg { kind, read_state: g.rng.chance(20), gate: None, sleep_ms: 0, shared: false });
+                    subs.push(SubCfg { kind, read_state: g.rng.chance(20), gate: None, sleep_ms: 0, shared: false, ..Default::default() });
                     ops.push(Op::AddSub { store: 0, sub: subs.len() - 1, reg: regs });
                     my_regs.push(regs);
                     regs += 1;
@@ -310,7 +342,7 @@ pub fn api(seed: u64) -> Program {
                     if g.rng.chance(40) {
                         // non-blocking API calls between two next() calls of the consuming thread
                         cons.push(Op::Next { it, n: 1 });
-                        subs.push(SubCfg { kind: SubKind::Direct, read_state: false, gate: None, sleep_ms: 0, shared: false });
+                        subs.push(SubCfg { kind: SubKind::Direct, read_state: false, gate: None, sleep_ms: 0, shared: false, ..Default::default() });
                         cons.push(Op::AddSub { store: 0, sub: subs.len() - 1, reg: regs });
                         cons.push(Op::Next { it, n: 1 });
                         cons.push(Op::Unsub { reg: regs });
@@ -455,7 +487,7 @@ pub fn build(seed: u64) -> Program {
         main.push(Op::AddSub { store: 0, sub: 0, reg: 0 });
         regs = 1;
         if g.rng.chance(30) {
-            subs.push(SubCfg { kind: SubKind::Channeled { cap: 2, policy: Policy::Block }, read_state: false, gate: None, sleep_ms: 0, shared: false });
+            subs.push(SubCfg { kind: SubKind::Channeled { cap: 2, policy: Policy::Block }, read_state: false, gate: None, sleep_ms: 0, shared: false, ..Default::default() });
             main.push(Op::AddSub { store: 0, sub: 1, reg: 1 });
             regs = 2;
         }
@@ -560,12 +592,16 @@ pub fn two(seed: u64) -> Program {
     // a subscriber object shared by both stores
     if g.rng.chance(50) {
         let kind = if g.rng.chance(40) { SubKind::Direct } else { SubKind::Selector };
-        subs.push(SubCfg { kind, read_state: false, gate: None, sleep_ms: 0, shared: true });
+        subs.push(SubCfg { kind, read_state: false, gate: None, sleep_ms: 0, shared: true, ..Default::default() });
         main.push(Op::AddSub { store: 0, sub: 2, reg: 2 });
         main.push(Op::AddSub { store: 1, sub: 2, reg: 3 });
         regs = 4;
     }
     let mut threads: Vec<Vec<Op>> = vec![vec![]];
+    // a direct subscriber of one store that forwards (some of) what it is told to the other store,
+    // through the Dispatcher interface, from the first store's reducer thread
+    let forwarder: Option<(usize, usize)> = if g.rng.chance(20) { let from = g.rng.below(2) as usize; Some((from, 1 - from)) } else { None };
+    let mut fwd_map: BTreeMap<ActId, ActId> = BTreeMap::new();
     let nprod = g.rng.range(1, 2 + g.scale) as usize;
     for _ in 0..nprod {
         let n = g.rng.range(2, 6 * g.scale) as usize;
@@ -573,6 +609,12 @@ pub fn two(seed: u64) -> Program {
         for _ in 0..n {
             let s = g.rng.below(2) as usize;
             let a = g.plain_act(&reds_of[s].clone(), 10);
+            if let Some((from, to)) = forwarder {
+                if s == from && g.rng.chance(50) {
+                    let b = g.plain_act(&reds_of[to].clone(), 0);
+                    fwd_map.insert(a, b);
+                }
+            }
             if twins.is_some() && g.rng.chance(25) {
                 let r0 = reds_of[s][0];
                 g.acts.get_mut(&a).unwrap().red.entry(r0).or_default().sleep_ms = 1;
@@ -585,11 +627,16 @@ pub fn two(seed: u64) -> Program {
         }
         threads.push(ops);
     }
+    if let Some((from, to)) = forwarder {
+        subs.push(SubCfg { kind: SubKind::Direct, forward: Some((to, fwd_map.clone())), ..Default::default() });
+        main.push(Op::AddSub { store: from, sub: subs.len() - 1, reg: regs });
+        regs += 1;
+    }
     // each store also has a subscriber of its own that some thread unsubscribes while both stores run
     if g.rng.chance(50) {
         for s in 0..2usize {
             let kind = if g.rng.chance(50) { SubKind::Direct } else { SubKind::Channeled { cap: g.rng.pick(&[1usize, 2, 4]), policy: Policy::Block } };
-            subs.push(SubCfg { kind, read_state: false, gate: None, sleep_ms: 0, shared: false });
+            subs.push(SubCfg { kind, read_state: false, gate: None, sleep_ms: 0, shared: false, ..Default::default() });
             main.push(Op::AddSub { store: s, sub: subs.len() - 1, reg: regs });
             let t = g.rng.range(1, threads.len() as u64 - 1) as usize;
             let pos = g.rng.below(threads[t].len() as u64 + 1) as usize;
